@@ -572,8 +572,8 @@ impl Property for C16 {
     }
     fn cases(&self, tier: Tier) -> usize {
         match tier {
-            Tier::Quick => 6000,
-            Tier::Thorough => 120000,
+            Tier::Quick => 24000,
+            Tier::Thorough => 144000,
         }
     }
     fn tape_len(&self, _t: Tier) -> usize {
